@@ -1,6 +1,7 @@
 (* C04 — substitution is function composition and dependent variables are recovered. *)
 Require Import Ommx.Num Ommx.Poly Ommx.Msg Ommx.Eval Ommx.Tree Ommx.Arith Ommx.ArithProofs Ommx.Inst
-        Ommx.Transform Ommx.TransformProofs Ommx.Subst Ommx.SubstProofs Ommx.DepsOrder.
+        Ommx.InstProofs Ommx.Transform Ommx.TransformProofs Ommx.Subst Ommx.SubstProofs Ommx.DepsOrder
+        Ommx.SubstInst Ommx.PenaltyPath Ommx.PenaltyPathEval.
 From Coq Require Import Permutation.
 From Coq Require Import String.
 Close Scope string_scope. Open Scope list_scope. Open Scope Qc_scope.
@@ -68,3 +69,130 @@ Example C04_nonvacuous_deps :
   (exists s', eval_deps [d11; d12] [(1%N, qz 5)] = Some s' /\ sget s' 12 = Some (qz 11)) /\
   eval_deps [(11%N, FLin (lin_single 12 1)); (12%N, FLin (lin_single 11 1))] [(1%N, qz 5)] = None.
 Proof. split; [eexists; split; vm_compute; reflexivity|vm_compute; reflexivity]. Qed.
+
+
+(* ---------------------------------------------------------------------------------------------
+   INSTANCE LEVEL (SubstInst.v): after Instance::substitute, evaluating a state over the remaining
+   variables reports for every replaced variable the value of its replacement (a), every earlier
+   dependent variable keeps the value of its defining function (d), and the objective (b) and every
+   evaluated constraint, active and removed, in order, with id / equality / metadata / removal
+   reason unchanged (c) have the value of the ORIGINAL function at the reported state; both
+   feasibility flags are "all hold".  Hypotheses: the replacement functions are well-formed
+   messages, R and the dependency map are maps (no repeated key), the state (after the recorded
+   fixed values are inserted) gives no value to a replaced or dependent variable and is not
+   contradicted by a recorded fixed value. *)
+Theorem C04_instance : forall tiny, tiny_exact tiny -> forall Ins R J s sol,
+  (forall i r, lookup i R = Some r -> fwf r) ->
+  NoDup (dkeys R) -> NoDup (dkeys (i_deps Ins)) ->
+  (forall d, In d (dkeys R) \/ In d (dkeys (i_deps Ins)) -> sget (insert_subst (i_dvs Ins) s) d = None) ->
+  sext s (insert_subst (i_dvs Ins) s) ->
+  inst_substitute tiny Ins R = Some J ->
+  inst_eval J s = Some sol ->
+  sext s (so_state sol) /\
+  (forall a f, lookup a R = Some f ->
+     exists v ids, sget (so_state sol) a = Some v /\ fn_eval f (so_state sol) = Some (v, ids) /\
+                   (forall rho, agrees rho (so_state sol) -> v = denote f rho) /\
+                   (forall w ids', fn_eval f s = Some (w, ids') -> w = v)) /\
+  (forall d h, In (d, h) (i_deps Ins) -> ~ In d (dkeys R) ->
+     exists v, sget (so_state sol) d = Some v /\
+               forall rho, agrees rho (so_state sol) -> v = denote h rho) /\
+  (forall rho, agrees rho (so_state sol) -> so_objective sol = denote (fn_or_zero (i_obj Ins)) rho) /\
+  (exists ea er, so_evaluated sol = ea ++ er /\
+     Forall2 (fun c e => reports_at c None (so_state sol) e) (i_cs Ins) ea /\
+     Forall2 (fun r e => reports_removed_at r (so_state sol) e) (i_rs Ins) er /\
+     (so_feasible_relaxed sol = true <-> Forall holds ea) /\
+     (so_feasible sol = true <-> Forall holds (ea ++ er))) /\
+  so_dvs sol = i_dvs Ins.
+Proof. exact inst_substitute_eval. Qed.
+Print Assumptions C04_instance.
+
+(* the reported value of a replaced variable is the value of its replacement at the GIVEN state when
+   that state covers the replacement *)
+Theorem C04_instance_value : forall tiny, tiny_exact tiny -> forall Ins R J s sol,
+  (forall i r, lookup i R = Some r -> fwf r) ->
+  NoDup (dkeys R) -> NoDup (dkeys (i_deps Ins)) ->
+  (forall d, In d (dkeys R) \/ In d (dkeys (i_deps Ins)) -> sget (insert_subst (i_dvs Ins) s) d = None) ->
+  sext s (insert_subst (i_dvs Ins) s) ->
+  inst_substitute tiny Ins R = Some J ->
+  inst_eval J s = Some sol ->
+  forall a f, lookup a R = Some f -> covers s f ->
+    exists w ids, fn_eval f s = Some (w, ids) /\ sget (so_state sol) a = Some w.
+Proof. exact inst_substitute_eval_value. Qed.
+Print Assumptions C04_instance_value.
+
+(* chains arising from successive substitutions: R1, then R2 on remaining variables (which may occur
+   in R1's functions); everything is related to the instance two steps back *)
+Theorem C04_instance_chain : forall tiny, tiny_exact tiny -> forall Ins R1 R2 J1 J2 s sol,
+  (forall i r, lookup i R1 = Some r -> fwf r) ->
+  (forall i r, lookup i R2 = Some r -> fwf r) ->
+  NoDup (dkeys R1) -> NoDup (dkeys R2) -> NoDup (dkeys (i_deps Ins)) ->
+  (forall d, In d (dkeys R1) -> ~ In d (dkeys R2)) ->
+  (forall d, In d (dkeys R1) \/ In d (dkeys R2) \/ In d (dkeys (i_deps Ins)) ->
+             sget (insert_subst (i_dvs Ins) s) d = None) ->
+  sext s (insert_subst (i_dvs Ins) s) ->
+  inst_substitute tiny Ins R1 = Some J1 ->
+  inst_substitute tiny J1 R2 = Some J2 ->
+  inst_eval J2 s = Some sol ->
+  sext s (so_state sol) /\
+  (forall a f, lookup a R1 = Some f ->
+     exists v, sget (so_state sol) a = Some v /\
+               (forall rho, agrees rho (so_state sol) -> v = denote f rho) /\
+               (forall w ids, fn_eval f (so_state sol) = Some (w, ids) -> w = v)) /\
+  (forall b g, lookup b R2 = Some g ->
+     exists v ids, sget (so_state sol) b = Some v /\ fn_eval g (so_state sol) = Some (v, ids) /\
+                   (forall rho, agrees rho (so_state sol) -> v = denote g rho) /\
+                   (forall w ids', fn_eval g s = Some (w, ids') -> w = v)) /\
+  (forall d h, In (d, h) (i_deps Ins) -> ~ In d (dkeys R1) -> ~ In d (dkeys R2) ->
+     exists v, sget (so_state sol) d = Some v /\ forall rho, agrees rho (so_state sol) -> v = denote h rho) /\
+  (forall rho, agrees rho (so_state sol) -> so_objective sol = denote (fn_or_zero (i_obj Ins)) rho) /\
+  (exists ea er, so_evaluated sol = ea ++ er /\
+     Forall2 (fun c e => reports_at c None (so_state sol) e) (i_cs Ins) ea /\
+     Forall2 (fun r e => reports_removed_at r (so_state sol) e) (i_rs Ins) er /\
+     (so_feasible_relaxed sol = true <-> Forall holds ea) /\
+     (so_feasible sol = true <-> Forall holds (ea ++ er))) /\
+  so_dvs sol = i_dvs Ins.
+Proof. exact inst_substitute_chain. Qed.
+Print Assumptions C04_instance_chain.
+
+(* the QUBO-driver path: after the substitution, a penalty conversion (either one) and the
+   instantiation of the weights, evaluating the resulting instance STILL reports every replaced
+   variable with the value of its replacement and every earlier dependent variable with the value of
+   its defining function (the evaluation of the intermediate instance J is not assumed to succeed) *)
+Theorem C04_penalty_path : forall tiny, tiny_exact tiny -> forall Ins R J P theta I2 s sol2,
+  (forall i r, lookup i R = Some r -> fwf r) ->
+  NoDup (dkeys R) -> NoDup (dkeys (i_deps Ins)) ->
+  (forall d, In d (dkeys R) \/ In d (dkeys (i_deps Ins)) -> sget (insert_subst (i_dvs Ins) s) d = None) ->
+  sext s (insert_subst (i_dvs Ins) s) ->
+  inst_substitute tiny Ins R = Some J ->
+  (penalty tiny J = Some P \/ uniform_penalty tiny J = Some P) ->
+  with_parameters tiny P theta = Some I2 ->
+  inst_eval I2 s = Some sol2 ->
+  sext s (so_state sol2) /\
+  (forall a f, lookup a R = Some f ->
+     exists v ids, sget (so_state sol2) a = Some v /\ fn_eval f (so_state sol2) = Some (v, ids) /\
+                   (forall rho, agrees rho (so_state sol2) -> v = denote f rho) /\
+                   (forall w ids', fn_eval f s = Some (w, ids') -> w = v)) /\
+  (forall d h, In (d, h) (i_deps Ins) -> ~ In d (dkeys R) ->
+     exists v, sget (so_state sol2) d = Some v /\
+               forall rho, agrees rho (so_state sol2) -> v = denote h rho) /\
+  so_dvs sol2 = i_dvs Ins.
+Proof. exact penalty_path_reports. Qed.
+Print Assumptions C04_penalty_path.
+
+(* any instance: what evaluation reports about its dependency map *)
+Theorem C04_eval_reports_deps : forall K s sol,
+  NoDup (dkeys (i_deps K)) ->
+  (forall d, In d (dkeys (i_deps K)) -> sget (insert_subst (i_dvs K) s) d = None) ->
+  sext s (insert_subst (i_dvs K) s) ->
+  inst_eval K s = Some sol ->
+  sext s (so_state sol) /\ solved (i_deps K) (so_state sol) /\ so_dvs sol = i_dvs K.
+Proof. exact inst_eval_reports_deps. Qed.
+Print Assumptions C04_eval_reports_deps.
+
+(* non-vacuity of the instance-level theorems: concrete instances, maps and states satisfy every
+   hypothesis and every evaluation returns Some (see the Examples in SubstInst.v / PenaltyPathEval.v) *)
+Check inst_substitute_eval_nonvacuous.
+Check inst_substitute_chain_nonvacuous.
+Check penalty_path_nonvacuous.
+Print Assumptions inst_substitute_eval_nonvacuous.
+Print Assumptions penalty_path_nonvacuous.
